@@ -27,7 +27,7 @@ def ms_harnesses(sels=("SEL_SEEKREAD", "SEL_INIT")):
             spb = 2 * (bs - 6 * ch) // ch
             d = {sel: 1, "CH": ch, "BS": bs, "BS_INIT": 32 * ch, "MF_CAP": 4 + 3 * bs + 2, "MF_MAXIO": bs + 2, "MF_NFILES": 2, "MEMCPY_MAX": max((3 * spb + 4) * ch * 2, 64)}
             out.append(H("blk.ms.ch%d.%s" % (ch, sel[4:].lower()), "L3/blk_ms.c", link=["common"], stubs=["psf_log_printf", "psf_memset"], defines=d,
-                         unwind=3 * spb * ch + 6, unwindset=["psf_fread.0:%d" % (bs + 3), "psf_memset.0:65", "memcpy.0:%d" % (max((3 * spb + 4) * ch * 2, 64) + 1),
+                         unwind=max(3 * spb * ch + 6, 4 + 3 * bs + 3), unwindset=["psf_fread.0:%d" % (bs + 3), "psf_memset.0:65", "memcpy.0:%d" % (max((3 * spb + 4) * ch * 2, 64) + 1),
                                                               "memset.0:%d" % (max((3 * spb + 4) * ch * 2, 64) + 1), "msadpcm_read_block.0:6", "msadpcm_read_s.0:3"],
                          checks="mem", include_env=("log_stub", "memfile", "memset_model", "memcpy_model"), timeout=900, fsa=200,
                          tiers=("quick", "thorough") if ch == 1 else ("thorough",),
@@ -39,10 +39,12 @@ def ms_harnesses(sels=("SEL_SEEKREAD", "SEL_INIT")):
 def sds_harnesses(sels=("SEL_FLUSH", "SEL_HEADER")):
     out = []
     for sel in sels:
-        d = {sel: 1, "MF_CAP": 0x15 + 4 * 127 + 2, "MF_MAXIO": 128, "MEMCPY_MAX": 260}
-        out.append(H("blk.sds16." + sel[4:].lower(), "L3/blk_sds.c", link=["common"], stubs=["psf_log_printf", "psf_memset"], defines=d,
-                     unwind=130, unwindset=["psf_fread.0:129", "psf_fwrite.0:129", "psf_memset.0:65", "memcpy.0:261", "memset.0:261", "psf_binheader_writef.1:40"],
-                     checks="mem", include_env=("log_stub", "memfile", "memset_model", "memcpy_model", "snprintf_model"), timeout=900, fsa=700,
-                     functions=["sds_close", "sds_write_header", "sds_2byte_write", "sds_2byte_read"],
-                     bounds="16-bit SDS, 0..2 complete packets before, pending packet with fill level 1..59 (symbolic), symbolic samples"))
+        for kf, blk in ((1, 0), (10, 1), (30, 0), (59, 2)):
+            d = {sel: 1, "K_FIXED": kf, "BLK_FIXED": blk, "MF_CAP": 0x15 + 4 * 127 + 2, "MF_MAXIO": 128, "MEMCPY_MAX": 260}
+            out.append(H("blk.sds16.%s.k%d" % (sel[4:].lower(), kf), "L3/blk_sds.c", link=["common"], stubs=["psf_log_printf", "psf_memset"], defines=d,
+                         unwind=130, unwindset=["psf_fread.0:129", "psf_fwrite.0:129", "psf_memset.0:65", "memcpy.0:261", "memset.0:261", "psf_binheader_writef.1:40"],
+                         checks="mem", include_env=("log_stub", "memfile", "memset_model", "memcpy_model", "snprintf_model"), timeout=900, fsa=700,
+                         tiers=("quick", "thorough") if kf in (10, 59) else ("thorough",),
+                         functions=["sds_close", "sds_write_header", "sds_2byte_write", "sds_2byte_read"],
+                         bounds="16-bit SDS, %d complete packet(s) before, pending packet with fill level %d (grid), all sample values symbolic" % (blk, kf)))
     return out
